@@ -94,7 +94,8 @@ def s1() -> Tuple[Any, Callable[[], None], bool]:
             await leaf()
 
     async def top():
-        with CM("top"):
+        # several sibling managers in one frame: faults in two of them belong to the same Stack
+        with CM("top"), CM("top2"), inner_cm():
             await mid()
 
     co = top()
